@@ -131,6 +131,20 @@ func customOps(l *Log) map[string]eval.Operator {
 	}
 }
 
+// curK: the value the configs bind the ConstantMap constant K to.  Families that judge results against the reference
+// semantics vary it from record to record (the same source then means something else under another config's constants);
+// setK writes it into the K leaves of the record's tree, which is what the judge reads.
+var curK = int64(3)
+
+func setK(t *Tree, k int64) {
+	if t.K == "c" && t.Name == "K" {
+		t.V = tv(k)
+	}
+	for _, c := range t.Kids {
+		setK(c, k)
+	}
+}
+
 var varNames = []string{"x", "y", "z", "n", "m", "s", "l", "e"}
 
 type ConfOpts struct {
@@ -185,7 +199,7 @@ func newConf(o ConfOpts, l *Log) (*eval.Config, string) {
 	for k := o.ManyStateless / 2; k < o.ManyStateless; k++ {
 		cc.StatelessOperators = append(cc.StatelessOperators, fmt.Sprintf("%s%02d", []string{"q", "a", "zz"}[k%3], k))
 	}
-	cc.ConstantMap["K"] = int64(3)
+	cc.ConstantMap["K"] = curK
 	cc.ConstantMap["KT"] = true
 	if foreignConsts {
 		cc.ConstantMap["KI"] = int(3) // a Go int: not one of the engine's value types
@@ -348,7 +362,7 @@ func newConfAPI(o ConfOpts, l *Log) *eval.Config {
 	if !o.NoStateless {
 		cc.StatelessOperators = append(cc.StatelessOperators, "p")
 	}
-	cc.ConstantMap["K"] = int64(3)
+	cc.ConstantMap["K"] = curK
 	cc.ConstantMap["KT"] = true
 	if foreignConsts {
 		cc.ConstantMap["KI"] = int(3)
